@@ -552,7 +552,7 @@ def inprocess(ctx):
             if res2 != res:
                 ctx.fail({'old': old, 'new': new, 'a': res, 'b': res2},
                          'override_object gives a different map for key-permuted but equal arguments', [])
-        terms.append(cpair(cpair(cjv(old), cjv(new)), copt(res, cjv) if ok else 'None'))
+        terms.append(cpair(cpair(cjv(old), cjv(new)), ('(Some %s)' % cjv(res)) if ok else 'None'))
         descr.append({'old': old, 'new': new, 'impl': res if ok else 'AttributeError'})
     bad = ctx.model_mismatches(HEADER, terms, 'check_override', chunk=150, name='override')
     for i in bad:
